@@ -219,8 +219,10 @@ func (p c03) Exec(c *run.Ctx, idx int, raw json.RawMessage) []run.Result {
 			dirOwners[n]++
 		}
 	}
-	if strings.Contains(sp.U.Mono, ") repeatable on") {
-		tags["repeatable-directive"] = true
+	for _, sv := range sp.U.Services {
+		if strings.Contains(sv.SDL, " repeatable on") {
+			tags["repeatable-directive"] = true
+		}
 	}
 	if strings.Contains(sp.U.Mono, "directive @") {
 		tags["custom-directive"] = true
